@@ -3,7 +3,7 @@ import random, subprocess, tempfile, os, shutil
 from concurrent.futures import ThreadPoolExecutor
 from common import *
 from gen_prog import *
-from c04 import rand_text
+from c04 import rand_text, ALPHA22
 
 
 def run_cli(args):
@@ -38,6 +38,10 @@ def main(tier, seed):
             if r < 0.45:
                 p = rand_prog(rng, grammar=True)
                 content = render_prog(p, rng.choice([" ", "\n"])).encode("utf-8")
+            elif r < 0.65:
+                # near-syntax texts: short strings over one representative of every character class (orphan start
+                # syllables, end syllables without start, hearts/operators in odd places)
+                content = "".join(rng.choice(ALPHA22) for _ in range(rng.randint(2, 10))).encode("utf-8")
             else:
                 content = rand_bytes(rng)
             q = rng.random()
@@ -52,7 +56,7 @@ def main(tier, seed):
                 open(path, "wb").write(content)
             s = rng.random()
             stdin = b"" if s < 0.3 else (rand_stdin(rng).encode("utf-8") if s < 0.7 else rand_bytes(rng, 0.2))
-            mode = "check" if rng.random() < 0.2 else "run"
+            mode = "check" if rng.random() < (0.5 if 0.45 <= r < 0.65 else 0.2) else "run"
             lvl = rng.choice([0, 1, 2])
             argv = ["check", path] if mode == "check" else ["run", "-O%d" % lvl, path]
             jobs.append((argv, stdin)); meta.append((mode, lvl, path, name, content, stdin))
